@@ -169,6 +169,11 @@ func (s *Service) proposeBlock(ctx context.Context,
 		return err
 	}
 
+	if proposal.Blinded && auctionResults == nil {
+		// Without auction results there are no relays to unblind the proposal, so do not sign it.
+		return errors.New("obtained blinded proposal without auction results; cannot unblind")
+	}
+
 	signedProposal, err := s.signProposalData(ctx, proposal, duty)
 	if err != nil {
 		return err
